@@ -90,6 +90,11 @@ def check(ctx):
         args = ["-mode", "table", "-seed", ctx.seed]
         t = produce(ctx, "table", args)
         runner.run_job(ctx, job(ctx, "table", t, args))
+        if prop == "C14":
+            # every reply: server_id followed by each other built-in plugin must still leave the identifier in place
+            a3 = ["-mode", "sidchain", "-seed", ctx.seed]
+            t3 = produce(ctx, "sidchain", a3)
+            runner.run_job(ctx, job(ctx, "sidchain", t3, a3))
         if not ctx.quick:
             for k in range(1, 6):
                 a2 = ["-mode", "table", "-seed", ctx.seed + 100 * k]
